@@ -406,7 +406,11 @@ impl PacketReceiver {
     // comes first. Any incomplete or dropped packets are skipped, and as a result, the sender must
     // ensure that all reliable packets have been received in full prior to issuing the request.
     pub fn resynchronize(&mut self, sender_next_id: u32) {
-        debug_assert!(packet_id::is_valid(sender_next_id));
+        if !packet_id::is_valid(sender_next_id) {
+            // Not a packet ID (the sync frame field is 32 bits wide): the walk below would never
+            // reach it
+            return;
+        }
 
         let base_id = self.base_id;
         let sender_delta = packet_id::sub(sender_next_id, base_id);
